@@ -113,6 +113,12 @@ def make_tx(rng):
     return raw
 
 
+def alter_tx_bytes(rng, raw):
+    """one byte of the output amount / output script hash / locktime changed: still parses, different txid"""
+    j = rng.choice(list(range(154, 162)) + list(range(166, 186)) + list(range(188, 192)))
+    return raw[:j] + bytes([raw[j] ^ (1 << rng.randrange(8))]) + raw[j + 1:]
+
+
 def make_block(n, seed):
     rng = random.Random(f'block:{seed}:{n}')
     return [make_tx(rng) for _ in range(n)]
@@ -271,9 +277,7 @@ def monitor(case, obs, extra):
     prior = case.get('prior') or {'height': -2, 'position': -1, 'verified': False}
     eff = case['net'] if is_falsy(case['arg']) else case['arg']
     eff = eff or {}
-    leaf = H(raw)
-    if extra['hash'] != leaf:
-        return f'tx.hash is not the double SHA-256 of the raw transaction'
+    leaf = H(raw)          # always from the bytes of the transaction object that came back, never from an id
     if extra['len_headers'] != len(roots):
         return f'header store reports {extra["len_headers"]} headers, {len(roots)} were connected'
     if obs['height'] != h:
@@ -294,7 +298,11 @@ def monitor(case, obs, extra):
             return f'verified at height {h} but the wallet has only headers 0..{len(roots) - 1}'
         if not ref_ok:
             return (f'verified at height {h} although the branch/position/transaction do not hash up to the '
-                    f'Merkle root of that header')
+                    f'Merkle root of that header' + (' (the raw bytes returned by the server are not the requested '
+                                                     'transaction; only its id and proof are genuine)'
+                                                     if case.get('requested_txid') else ''))
+    if extra['hash'] != leaf or extra['txid'] != wire(leaf):
+        return 'tx.hash / tx.id of the returned transaction is not the double SHA-256 of its raw bytes'
     if not has_header and obs['verified'] != prior['verified']:
         return f'verified flag changed at unknown height {h}'
     if evaluated and obs['position'] != eff.get('pos'):
@@ -530,8 +538,13 @@ def batch_checks(run, world, model, rng, n, seed):
         path = ref_path(branch, idx, leaves[idx])
         c = rng.random()
         pos, br, exp, flavour = idx, list(branch), 'accept', 'genuine'
-        if c < 0.5:
+        reply_raw = raws[idx]
+        if c < 0.42:
             pass
+        elif c < 0.5:
+            # the reply is keyed by the requested txid and carries its genuine proof, but the raw bytes differ
+            reply_raw = alter_tx_bytes(rng, raws[idx])
+            exp, flavour = 'reject', 'reply-tx-altered'
         elif c < 0.65 and branch:
             k = rng.randrange(len(branch))
             br[k] = rng.randbytes(32)
@@ -554,23 +567,26 @@ def batch_checks(run, world, model, rng, n, seed):
             {'block_height': claimed, 'merkle': text_elems(br), 'pos': pos}
         if req_height != at:
             exp = 'reject' if (0 < req_height < size and flavour != 'no-merkle-key') else None
-        entries.append((idx, arg, exp, flavour))
+        entries.append((idx, arg, exp, flavour, reply_raw))
     net = FakeNetwork(None)
-    net.batch = {wire(leaves[idx]): (raws[idx].hex(), decode_arg(arg)) for idx, arg, _, _ in entries}
+    net.batch = {wire(leaves[idx]): (rr.hex(), decode_arg(arg)) for idx, arg, _, _, rr in entries}
     ledger.network = net
-    heights = {wire(leaves[idx]): req_height for idx, _, _, _ in entries}
+    heights = {wire(leaves[idx]): req_height for idx, _, _, _, _ in entries}
     batch_case = {'kind': 'batch', 'n': n, 'block_seed': seed, 'roots': [r.hex() for r in roots], 'height': req_height,
-                  'entries': [[idx, arg, flavour] for idx, arg, _, flavour in entries]}
+                  'entries': [[idx, arg, flavour, rr.hex()] for idx, arg, _, flavour, rr in entries]}
     try:
         txs = world.loop.run_until_complete(ledger._single_batch(list(heights), heights))
     except Exception as e:
         run.case(batch_case)
         run.disagreement('C08.batch', batch_case, type(e).__name__, 'no exception')
         return
-    for idx, arg, exp, flavour in entries:
-        case = {'kind': 'batch:' + flavour, 'n': n, 'block_seed': seed, 'idx': idx, 'raw': raws[idx].hex(),
+    for idx, arg, exp, flavour, reply_raw in entries:
+        case = {'kind': 'batch:' + flavour, 'n': n, 'block_seed': seed, 'idx': idx, 'raw': reply_raw.hex(),
                 'roots': batch_case['roots'], 'height': req_height, 'arg': arg, 'net': {}, 'expect': exp}
-        tx = txs.get(wire(leaves[idx]))
+        if reply_raw != raws[idx]:
+            case['requested_txid'] = wire(leaves[idx])
+        # the transaction object that came back for this reply, whatever key it is filed under
+        tx = next((t for t in txs.values() if t.raw == reply_raw), None)
         run.case(case, nontrivial=True)
         run.count('kind:' + case['kind'])
         if tx is None:
@@ -591,17 +607,18 @@ def replay_batch_entry(run, world, model, case):
     roots = [bytes.fromhex(r) for r in case['roots']]
     ledger, hraws = world.ledger_for(roots)
     raw = bytes.fromhex(case['raw'])
-    txid = wire(H(raw))
+    txid = case.get('requested_txid') or wire(H(raw))
     net = FakeNetwork(None)
     net.batch = {txid: (case['raw'], decode_arg(case['arg']))}
     ledger.network = net
     txs = world.loop.run_until_complete(ledger._single_batch([txid], {txid: case['height']}))
-    tx = txs[txid]
+    tx = next(t for t in txs.values() if t.raw == raw)
     flavour = case['kind'].split(':', 1)[1]
     obs = {'height': tx.height, 'position': tx.position, 'verified': tx.is_verified, 'fetched': False,
            'outcome': 'none' if flavour == 'no-merkle-key' and 0 < case['height'] < len(roots) else 'tx'}
     extra = {'net_calls': net.calls, 'txid': tx.id, 'hash': tx.hash, 'len_headers': len(ledger.headers)}
     run.case(case, nontrivial=True)
+    run.count('kind:' + case['kind'])
     bad = monitor(case, obs, extra)
     if bad:
         run.violation(case, bad, signature={'kind': case['kind'], 'n': case.get('n'), 'idx': case.get('idx'),
@@ -619,7 +636,7 @@ def show_case(run, world, model, case):
     ledger = mgr.ledger
     ledger.headers = cached.headers
     raw = bytes.fromhex(case['raw'])
-    txid = wire(H(raw))
+    txid = case.get('requested_txid') or wire(H(raw))
     net = FakeNetwork(None)
     net.batch = {txid: (case['raw'], decode_arg(case['arg']))}
     ledger.network = net
@@ -663,7 +680,7 @@ def show_cases(rng, n, seed):
     for idx in rng.sample(range(n), min(n, 3)):
         branch = ref_branch(levels, idx)
         path = ref_path(branch, idx, leaves[idx])
-        for flavour in ('genuine', 'wrong-sibling', 'pos-bit', 'height', 'mempool'):
+        for flavour in ('genuine', 'wrong-sibling', 'pos-bit', 'height', 'mempool', 'reply-tx-altered'):
             br, pos, h, exp = list(branch), idx, at, 'accept'
             if flavour == 'wrong-sibling':
                 if not br:
@@ -685,8 +702,171 @@ def show_cases(rng, n, seed):
             arg = {'merkle': text_elems(br), 'pos': pos}
             if h is not None:
                 arg['block_height'] = h
-            yield {'kind': 'show:' + flavour, 'n': n, 'block_seed': seed, 'idx': idx, 'raw': raws[idx].hex(),
-                   'roots': [r.hex() for r in roots], 'height': h, 'arg': arg, 'net': {}, 'expect': exp}
+            c = {'kind': 'show:' + flavour, 'n': n, 'block_seed': seed, 'idx': idx, 'raw': raws[idx].hex(),
+                 'roots': [r.hex() for r in roots], 'height': h, 'arg': arg, 'net': {}, 'expect': exp}
+            if flavour == 'reply-tx-altered':
+                c.update(raw=alter_tx_bytes(rng, raws[idx]).hex(), requested_txid=wire(leaves[idx]), expect='reject')
+            yield c
+
+
+# ------------------------------------------------------------------------------------------------
+# "locally validated header": the header store built through the REAL validating Headers.connect
+# (proof of work on an easy max_target, bits, previous-hash links), with messages that contain an
+# invalid header; proofs are then offered against headers that must not be there
+# ------------------------------------------------------------------------------------------------
+EASY_TARGET = (1 << 255) - 1
+
+
+def _c07():
+    from props import c07          # reference header rules (hashlib only) owned by the C07 check
+    return c07
+
+
+class PowHd(Headers):
+    max_target = EASY_TARGET
+    genesis_hash = None
+    checkpoints = {}
+    validate_difficulty = True
+
+
+def mine_header(rng, chain, merkle, rule=None):
+    """a successor of chain[-1] (or a first header) carrying `merkle`; rule None: valid under the real rules
+    (link, bits from the retarget rule, proof of work); 'prev' / 'bits' / 'pow': valid except for that rule"""
+    c7 = _c07()
+    if not chain:
+        return c7.pack(1, bytes(32), merkle, bytes(32), 1600000000, c7.ref_compact(EASY_TARGET), rng.randrange(2 ** 32))
+    t = c7.ref_next_target(EASY_TARGET, chain[-2] if len(chain) > 1 else None, chain[-1])
+    prev, bits = H(chain[-1]), c7.ref_compact(t)
+    if rule == 'prev':
+        prev = rng.choice([rng.randbytes(32), prev[:31] + bytes([prev[31] ^ 1]), H(chain[-2]) if len(chain) > 1 else bytes(32)])
+    elif rule == 'bits':
+        bits = bits + rng.choice([1, -1])
+    ts = c7.fields(chain[-1])[0] + 150
+    nonce = rng.randrange(2 ** 32)
+    while True:
+        raw = c7.pack(1, prev, merkle, bytes(32), ts, bits, nonce)
+        if (c7.pow_value(raw) <= t) != (rule == 'pow'):
+            return raw
+        nonce = (nonce + 1) % 2 ** 32
+
+
+def connect_cases(rng, thorough):
+    """base chain connected first, then ONE message [valid * k, INVALID, anything...]; proofs offered at the base,
+    at the valid prefix, at the invalid header and behind it"""
+    n = rng.choice([1, 2, 3, 5, 7, 8])
+    seed = rng.randrange(10 ** 9)
+    raws = make_block(n, seed)
+    leaves = [H(r) for r in raws]
+    levels = ref_levels(leaves)
+    root = levels[-1][0]
+    b = rng.randrange(2, 6)
+    m = rng.randrange(3, 8)
+    rule = rng.choice(['prev', 'bits', 'pow', 'prev', None])
+    k = rng.randrange(1, m) if rule else m                 # index of the first invalid header in the message
+    if rule and rng.random() < 0.7:
+        k = rng.randrange(1, (m + 1) // 2)                 # ... mostly in the first half of the message
+    chain = []
+    carrier = rng.randrange(1, b)                          # a base header that carries the block as well
+    for i in range(b):
+        chain.append(mine_header(rng, chain, root if i == carrier else rng.randbytes(32)))
+    msg = []
+    for i in range(m):
+        # the block's root sits in the invalid header, in one header of the valid prefix and in one behind
+        carries = (i == k) or (i == k - 1) or (i == k + 1) or rng.random() < 0.3
+        msg.append(mine_header(rng, chain + msg, root if carries else rng.randbytes(32), rule if i == k else None))
+    heights = sorted({carrier, b + k - 1, b + k, b + k + 1, b + m - 1} & set(range(1, b + m)))
+    for h in heights:
+        sent = (chain + msg)[h]
+        if sent[36:68] != root:
+            continue
+        for idx in ([rng.randrange(n)] if not thorough else sorted({0, n - 1, rng.randrange(n)})):
+            yield {'kind': 'connect:' + (rule or 'all-valid'), 'n': n, 'block_seed': seed, 'idx': idx,
+                   'raw': raws[idx].hex(), 'base': [x.hex() for x in chain], 'msg': [x.hex() for x in msg],
+                   'first_invalid': k if rule else None, 'height': h,
+                   'arg': {'block_height': h, 'merkle': text_elems(ref_branch(levels, idx)), 'pos': idx}, 'net': {}}
+
+
+def connect_case(run, world, model, case):
+    c7 = _c07()
+    cfg = {'max_target': EASY_TARGET, 'genesis': None, 'vd': True, 'checkpoints': []}
+    base = [bytes.fromhex(x) for x in case['base']]
+    msg = [bytes.fromhex(x) for x in case['msg']]
+    sent = base + msg
+    h = case['height']
+    run.case(case, nontrivial=True)
+    run.count('kind:' + case['kind'])
+    sig = {'kind': case['kind'], 'n': case.get('n'), 'idx': case.get('idx'), 'block_seed': case.get('block_seed'),
+           'height': h, 'first_invalid': case.get('first_invalid')}
+    # reference: which of the sent headers pass validation (rules written in the C07 harness on hashlib)
+    if c7.ref_first_invalid(cfg, [], base) is not None:
+        run.disagreement('C08.connect harness', case, 'base chain is not valid', None)
+        return
+    fi = c7.ref_first_invalid(cfg, base, msg)
+    valid_upto = len(sent) if fi is None else len(base) + fi[0]
+    key = ('pow', case['base'][-1], ''.join(case['msg']))
+    hit = world.cache.get(key)
+    if hit is None:
+        hd = PowHd(':memory:')
+        world.loop.run_until_complete(hd.open())
+        added0 = world.loop.run_until_complete(hd.connect(0, b''.join(base)))
+        added1 = world.loop.run_until_complete(hd.connect(len(base), b''.join(msg)))
+        ledger = Ledger({'db': Database(':memory:'), 'headers': hd})
+        hit = world.cache[key] = (ledger, added0, added1)
+    ledger, added0, added1 = hit
+    hd = ledger.headers
+    if added0 != len(base):
+        run.disagreement('C08.connect', case, f'valid base chain: {added0} of {len(base)} stored', None)
+        return
+    stored = [hd._read(i) for i in range(len(hd))]
+    raw = bytes.fromhex(case['raw'])
+    tx = Transaction(raw)
+    net = FakeNetwork({})
+    ledger.network = net
+    try:
+        ret = world.loop.run_until_complete(ledger.maybe_verify_transaction(tx, h, decode_arg(case['arg'])))
+        outcome = 'tx' if ret is tx else 'none' if ret is None else 'other'
+    except Exception as e:
+        outcome = type(e).__name__
+    obs = {'height': tx.height, 'position': tx.position, 'verified': tx.is_verified, 'outcome': outcome,
+           'fetched': bool(net.calls)}
+    leaf = H(raw)
+    decoded = [strict_unhex(e['s']) for e in case['arg']['merkle']]
+    folds = all(d is not None for d in decoded) and 0 <= h < len(sent) and \
+        ref_check([d[::-1] for d in decoded], case['arg']['pos'], leaf, sent[h][36:68])
+    if tx.is_verified:
+        if not (0 <= h < valid_upto):
+            why = '' if fi is None or h >= len(sent) else f' (the header sent for height {len(base) + fi[0]} breaks rule {fi[1]!r})'
+            run.violation(case, f'verified at height {h} against a header that never passed local validation: only '
+                                f'headers 0..{valid_upto - 1} of what the server sent are valid{why}', signature=sig)
+            return
+        if not folds or h >= len(stored) or stored[h] != sent[h]:
+            run.violation(case, f'verified at height {h} although the proof does not fold to the validated header', signature=sig)
+            return
+    elif folds and 0 < h < len(stored) and stored[h] == sent[h] and h < valid_upto:
+        run.violation(case, f'genuine proof to the validated, stored header {h} was not accepted', signature=sig)
+        return
+    if len(stored) > valid_upto:
+        run.disagreement('C08.connect: header store holds headers that failed validation', case, len(stored), valid_upto)
+        return
+    mod = model.call('maybe_verify', headers=[x.hex() for x in stored], st={'height': -2, 'position': -1, 'verified': False},
+                     raw=case['raw'], height=h, arg=model_resp(case['arg']), net={})
+    run.compare('C08.maybe_verify over a store built by the validating connect', case, obs, mod)
+
+
+def dispatch_case(run, world, model, case):
+    kind = case.get('kind', '')
+    if kind.startswith('connect:'):
+        connect_case(run, world, model, case)
+    elif kind.startswith('show:'):
+        show_case(run, world, model, case)
+    elif kind.startswith('batch:'):
+        replay_batch_entry(run, world, model, case)
+    else:
+        bad = check_expectation_against_block(case)
+        if bad:
+            run.disagreement('corpus/replay', case, bad, None)
+        else:
+            do_case(run, world, model, case)
 
 
 BAD_ELEMS = ['', 'a', 'zz', '0g', 'abc', ' ' * 64, '0x' + '11' * 31, '11' * 31, '11' * 33, '1' * 63, 'AB' * 32,
@@ -1116,16 +1296,15 @@ def main(run):
         'heights. Malformed stream: missing keys, falsy dict (network fetch), undecodable / upper-case / bytes / '
         'over- and under-long siblings, negative and 2^64-scale positions, re-verification of an already verified tx. '
         'Ledger._single_batch (the real call site, fresh Transaction objects) on batches of 1..8 transactions with '
-        'genuine and wrong proofs mixed; WalletManager.get_transaction (second call site) incl. block_height <= 0. get_root_of_merkle_tree directly under SHA-256d and under a weak hash; explicit collisions from the model; '
+        'genuine and wrong proofs mixed, incl. replies whose raw bytes are not the requested transaction (one byte '
+        'altered, key and proof genuine); header stores built by the real VALIDATING Headers.connect (easy max_target, '
+        'proof of work, bits, links) from a valid base plus one message [valid*k, invalid(prev|bits|pow), ...] with k '
+        'mostly in the first half, proofs offered at the prefix, the invalid header and behind it; WalletManager.get_transaction (second call site) incl. block_height <= 0. get_root_of_merkle_tree directly under SHA-256d and under a weak hash; explicit collisions from the model; '
         'legacy claim_proofs.verify_proof on generated trie paths and 12 mutations (correspondence only). '
         'distinct = distinct case JSON; non-trivial = a proof was evaluated or an error branch taken.')
     try:
         for case in load_corpus():
-            bad = check_expectation_against_block(case)
-            if bad:
-                run.disagreement('corpus', case, bad, None)
-                continue
-            do_case(run, world, model, case)
+            dispatch_case(run, world, model, case)
             run.count('corpus')
         sizes = list(range(1, 65))
         for n in sizes:
@@ -1149,6 +1328,9 @@ def main(run):
         for _ in range(vlib.scaled(run.tier, 40, 1000)):
             for case in show_cases(rng, rng.choice([1, 2, 3, 5, 7, 8, 13, 32, 64]), rng.randrange(10 ** 9)):
                 show_case(run, world, model, case)
+        for _ in range(vlib.scaled(run.tier, 150, 3000)):
+            for case in connect_cases(rng, thorough):
+                connect_case(run, world, model, case)
         for case in malformed_cases(rng, vlib.scaled(run.tier, 1500, 30000)):
             do_case(run, world, model, case)
         static_fold_checks(run, model, rng, vlib.scaled(run.tier, 1500, 30000))
@@ -1185,10 +1367,8 @@ def replay(run, case):
     try:
         if 'traceback' in case:
             run.disagreement('harness-crash', case, None, None)
-        elif case.get('kind', '').startswith('show:'):
-            show_case(run, world, model, case)
-        elif case.get('kind', '').startswith('batch:'):
-            replay_batch_entry(run, world, model, case)
+        elif case.get('kind', '').startswith(('show:', 'batch:', 'connect:')):
+            dispatch_case(run, world, model, case)
         elif case.get('kind', '').startswith(('tree', 'static-fold', 'collision-demo', 'legacy', 'batch')):
             run.notes.append('replay of tree/static/legacy cases: rerun the tier with the same VERIF_SEED')
             main(run)
